@@ -58,5 +58,14 @@ CHECKS["C13"] = dict(
     note="as C03",
     parts=[dict(bin="vh", part="c03", shards=dict(quick=12, thorough=21), budget=dict(quick=100, thorough=1500))])
 
+CHECKS["C14"] = dict(
+    level="model_checking", engine="xstate+sched", design_ref="DESIGN.md §5 C14",
+    technique="explicit-state BFS over the product of the shared real TokenLimiter and per-source solo-shadow real limiters (differential oracle) + DFS over all interleavings for the rate limiter and the connection limiter",
+    text="Every history up to the depth bound of requests from sources {a,b,c} and clock advances, for capacities {1,2,3,default}: each decision must equal what the source gets alone; beyond capacity exactly one admissible victim is forgotten. Concurrent part: all interleavings of 3 threads/2 sources on the rate limiter (race detector on) and of the connection limiter (C04 harness: 429 iff the OWN source is at its limit).",
+    note="one rate (1s:1/2), amounts {1,2}; eviction victim read reflectively from private state (exit 3, not a violation, if the layout changes)",
+    parts=[dict(bin="vh", part="c14", shards=16, budget=dict(quick=100, thorough=1500)),
+           dict(bin="vsched-race", part="c14s", shards=16, budget=dict(quick=100, thorough=1500)),
+           dict(bin="vsched", part="c04", shards=16, budget=dict(quick=100, thorough=1500))])
+
 NOT_APPLICABLE = [dict(property_id=p, reason="check not built yet in this revision (work in progress; see DESIGN.md for the plan)")
                   for p in ALL if p not in CHECKS]
